@@ -116,11 +116,7 @@ Theorem C19_qids_local : forall t0 n0 s qe t1 n1 h1 t2 n2 qw t3 n3 h2 t4 n4 qg t
 Proof. exact local_readdir_walk_getattr_agree. Qed.
 Print Assumptions C19_qids_local.
 
-(** and that type is the one of the file's kind, for all 7 kinds x 4096 permission words *)
-Theorem C19_qids_local_type : forall t p, In t valid_types -> p < 4096 ->
-  info_type (N.lor t p) = qidtype_of_type t /\ ModeFromOS (os_mode_of_stat (N.lor t p)) = N.lor t p.
-Proof. intros t p Ht Hp. destruct (stat_mode_and_type t p Ht Hp) as (A & B & _). split; assumption. Qed.
-Print Assumptions C19_qids_local_type.
+(** that [info_type] is the QID type of the file's kind, for all 7 kinds x 4096 permission words, is C20_info_type *)
 
 (** what the fix 1247c49 repaired (model of the earlier loop: no rewind, [<]) *)
 Theorem C19_local_old_refuted :
